@@ -60,6 +60,10 @@ def piece(R, gid, allow_positional, malformed=False, used=None):
         if o == 'cb':
             if allow_positional and R.random() < 0.5:
                 return dict(text='my_cb', toks=['i:my_cb'], eff=('cb', True))
+            if R.random() < 0.4:
+                # callback values full of operator tokens: the value extends to the next top-level comma whatever it contains
+                v = R.choice(['conv :: < u32 >', '| lex | lex . a < lex . b', '| lex | lex . n << 2', '| lex | lex . a > lex . b && lex . c < lex . d'])
+                return dict(text='callback = ' + v.replace(' ', ''), toks=['i:callback', 'e'] + ptoks(v), eff=('cb', True))
             return dict(text='callback = my_cb', toks=['i:callback', 'e', 'i:my_cb'], eff=('cb', True))
         if o == 'ign':
             g, text = R.choice(IGNORE_SPELLINGS[:4])
@@ -84,6 +88,18 @@ def piece(R, gid, allow_positional, malformed=False, used=None):
     if r < 0.95:
         return dict(text='priority(3)', toks=['i:priority', 'g:%d' % gid[0]], eff=('bad', None), group=gid_next(gid))
     return dict(text='ignore = case', toks=['i:ignore', 'e', 'i:case'], eff=('bad', None))
+
+
+def ptoks(text):
+    toks = []
+    for w in text.split(' '):
+        if w.isidentifier():
+            toks.append('i:' + w)
+        elif w.isdigit():
+            toks.append('l:' + w)
+        else:
+            toks += ['p:%d' % ord(ch) for ch in w]
+    return toks
 
 
 def gid_next(gid):
@@ -145,12 +161,22 @@ def gen(R, k):
     for j in range(R.choice([1, 2, 3])):
         shape = R.choice(['u', 'u', 'u', 't1', 't1', 't2', 'n', 't0']) if (malformed and R.random() < 0.5) else R.choice(['u', 'u', 't1'])
         variants.append(('V%d' % j, shape, [attr(R.choice(['t', 'r'])) for _ in range(R.choice([1, 1, 2]))]))
-    return dict(utf8=utf8, subs=subs, bsubs=bsubs, skips=skips, variants=variants, utf8_pos=R.randrange(8), combined=R.random() < 0.4)
+    extra = []
+    for text in R.sample(['error = MyErr', 'error(MyErr)', 'error(MyErr, callback = mk_err)', 'error(MyErr, mk_err)', 'extras = u8', 'crate = ::logos', 'extras = Vec<(u8, u8)>'], R.choice([0, 0, 1, 2])):
+        if text.startswith('error') and any(t.startswith('error') for (_, t) in extra):
+            continue
+        if text.startswith('extras') and any(t.startswith('extras') for (_, t) in extra):
+            continue
+        extra.append((R.randrange(8), text))
+    return dict(utf8=utf8, subs=subs, bsubs=bsubs, skips=skips, variants=variants, extra_items=extra, utf8_pos=R.randrange(8), combined=R.random() < 0.4)
 
 
 def render(d):
     out = ['#[derive(Logos, Debug, PartialEq, Clone)]']
     items = ['subpattern %s = %s' % (nm, rust_str(body)) for (nm, body) in d['subs']] + ['subpattern %s = %s' % (nm, rust_bytes(body.encode())) for (nm, body) in d.get('bsubs', [])] + ['skip(%s)' % a.body() for a in d['skips']]
+    # items that do not touch the patterns (error type in its three spellings, extras, crate path): anywhere among the others
+    for (pos, text) in d.get('extra_items', []):
+        items.insert(pos % (len(items) + 1), text)
     if d['utf8'] is not None:
         # the mode may be given before, between or after the items it governs
         items.insert(d.get('utf8_pos', 0) % (len(items) + 1), 'utf8 = %s' % ('true' if d['utf8'] else 'false'))
